@@ -62,6 +62,12 @@ pub assume_specification<'a>[ <Cow<'a, str> as From<String>>::from ](s: String) 
 // Cow::from(&str): "Converts a string slice into a Borrowed variant. No heap allocation is performed, and the string is not copied."
 pub assume_specification<'a>[ <Cow<'a, str> as From<&'a str>>::from ](s: &'a str) -> (r: Cow<'a, str>)
     ensures cow_view(&r) == s@;
+// Deref for Cow: borrowing a `Cow<str>` as `&str` gives its text
+pub uninterp spec fn cow_ref<'a, 'b, B: ?Sized + ToOwned>(c: &'b Cow<'a, B>) -> &'b B;
+pub assume_specification<'a, 'b, B: ?Sized + ToOwned>[ <Cow<'a, B> as std::ops::Deref>::deref ](c: &'b Cow<'a, B>) -> (r: &'b B)
+    ensures r == cow_ref(c);
+pub broadcast axiom fn axiom_cow_ref_str<'a>(c: &Cow<'a, str>)
+    ensures #[trigger] cow_ref::<str>(c)@ == cow_view(c);
 // String == &str / String == str: "This impl is equivalent to comparing the string contents."
 pub assume_specification<'a>[ <String as PartialEq<&'a str>>::eq ](a: &String, b: &&str) -> (r: bool)
     ensures r == (a@ == b@);
